@@ -42,6 +42,8 @@ def _dispatch(model: Model):
             t = c.args[1]
             if isinstance(t, ast.Name) and len(defs.get(t.id, [])) == 1:
                 t = defs[t.id][0]
+            elif isinstance(t, ast.Name) and t.id not in defs and isinstance(fwd.module.assigns.get(t.id), ast.AST):
+                t = fwd.module.assigns[t.id]              # a module-level table
             for k, v in dict_literal_entries(t) or []:
                 if isinstance(k, ast.Constant):
                     r = model.resolve_expr(fwd.module, v)
@@ -612,6 +614,19 @@ def rules(model: Model, tier: str) -> List[RuleResult]:
             if len(stars) == 1 and isinstance(stars[0].value, ast.Name):
                 d = defs.get(stars[0].value.id, [])
                 ok_opt = len(d) == 1 and isinstance(d[0], ast.Name) and d[0].id == fwd.params()[4]
+    if not ok_opt:
+        # another spelling (a copy, a filtered comprehension, ..): decide on the abstract content of the splatted dictionary
+        from ..rules import autograd as _ac
+        for c in ast.walk(fwd.node):
+            if isinstance(c, ast.Call) and isinstance(c.func, ast.Name) and len(defs.get(c.func.id, [])) == 1 and defs[c.func.id][0] is callsite \
+                    and any(k.arg is None for k in c.keywords):
+                try:
+                    _env, snaps, (_fd, _bd, fwd0, _b0, _fp) = _ac.abstract_option_run(model, fwd, watch_calls=[c])
+                except Exception:
+                    snaps, fwd0 = {}, {}
+                got = snaps.get(c)
+                if got is not None:
+                    ok_opt = {k_: v_ for k_, v_ in got.items() if k_ != "method"} == {k_: v_ for k_, v_ in fwd0.items() if k_ != "method"}
     if ok_opt and impl.kwarg() is not None and "n" in impl.params() + impl.kwonly():
         M.ok(fwd.fq, "the rule is called with **<forward options>, so the caller's n reaches leggauss(n=...)")
     else:
